@@ -136,6 +136,13 @@ fn run_update(changed: &mut HashSet<OwnedDirEntry>, deps: &mut DepsGraph, cache:
     changed.clear();
 
     for key in to_update.into_iter() {
-        deps.reload(cache.as_any_cache(), key);
+        // A panic in a loader must not kill the hot-reloading thread, or
+        // every later call to `hot_reload` would block forever.
+        let res = std::panic::catch_unwind(std::panic::AssertUnwindSafe(|| {
+            deps.reload(cache.as_any_cache(), key);
+        }));
+        if res.is_err() {
+            log::error!("Panic while reloading an asset");
+        }
     }
 }
